@@ -13,9 +13,25 @@ use crate::util::*;
 pub struct C16;
 
 fn payload(rng: &mut Rng) -> Vec<u8> {
-    match rng.below(11) {
+    match rng.below(12) {
         0 => vec![],
         10 => known_payload(rng),
+        11 => {
+            // code points a "text clean-up" would single out, at the start, at the end or alone:
+            // BOM, zero-width space, line/paragraph separators, NUL, DEL, noncharacters, the last code point
+            let specials = ['\u{feff}', '\u{200b}', '\u{2028}', '\u{2029}', '\u{0}', '\u{7f}', '\u{fffe}', '\u{ffff}', '\u{10ffff}', '\u{85}', '\u{a0}', '\u{202e}'];
+            let c = *rng.pick(&specials);
+            let body = {
+                let n = rng.usize(0, 20);
+                String::from_utf8(text(rng, n)).unwrap_or_default()
+            };
+            match rng.below(4) {
+                0 => c.to_string().into_bytes(),
+                1 => format!("{}{}", c, body).into_bytes(),
+                2 => format!("{}{}", body, c).into_bytes(),
+                _ => format!("{}{}{}", c, body, c).into_bytes(),
+            }
+        }
         1 | 2 => {
             let n = *rng.pick(&[1usize, 2, 40, 74, 75, 76, 77, 80, 83, 255, 256, 300, 520, 4000]);
             text(rng, n)
@@ -120,6 +136,13 @@ impl Prop for C16 {
                                 }
                             }
                             s
+                        }
+                        // every other kind of script, well-formed or not (one drawn from the script-typing
+                        // generators: near-misses, malformed witness programs, truncated pushes, …)
+                        5 if rng.coin() => {
+                            let btc = coin == "bitcoin" || coin == "testnet3";
+                            let mut v = if btc { bitcoin_scripts(rng, 1) } else { fork_scripts(rng, 1) };
+                            v.pop().unwrap_or_default()
                         }
                         _ => canonical_script(coin, rng),
                     };
